@@ -204,6 +204,15 @@ def run(chk: Check):
                 if tag in ("max", "min", "alt") and i % 4:
                     continue
                 check_preset_relation(chk, name, cls, ntaps, is_fir, sig, bl, tag)
+    # long blocks: one block just past a power of two (an implementation that works through a block in chunks meets a short
+    # last chunk), against the same signal cut in two and in 1000-sample blocks
+    for name, cls, ntaps, is_fir in presets():
+        for base in ((1024, 4096, 65536) if not thorough else (512, 1024, 2048, 4096, 8192, 16384, 32768, 65536)):
+            for r in ((1, 7, 17, 18, 100) if not thorough else (0, 1, 2, 3, 7, 8, 16, 17, 18, 19, 20, 100, 1000)):
+                n = base + r
+                sig = np.asarray([rng.randint(-30000, 30000) for _ in range(n)], dtype=np.int16)
+                check_preset_relation(chk, name, cls, ntaps, is_fir, sig, [n // 2, n - n // 2], f"long {base}+{r}")
+                check_preset_relation(chk, name, cls, ntaps, is_fir, sig, [1000] * (n // 1000) + ([n % 1000] if n % 1000 else []), f"long {base}+{r} /1000")
     for name, cls, ntaps, is_fir in presets():
         for n in (40, 64, 196):
             check_preset_reuse(chk, name, cls, np.asarray([rng.randint(-20000, 20000) for _ in range(n)], dtype=np.int16))
